@@ -65,6 +65,18 @@ out = ["-- Classification of every panic-capable site of /repo's non-test code (
 out.append(",\n".join(f'  ("{s}", "{c}", "{w}")' for s, c, w in rows))
 out.append("]")
 out.append("")
+# per (file, kind) counts of the reviewed sites: what the regenerated inventory is compared with, so that moving a
+# site into a helper function (new name, same file, same kind) is not mistaken for a new site
+cnt = {}
+for s_, _, _ in rows:
+    f = s_.split("::")[0]
+    k = s_.rsplit("::", 1)[1].split("#")[0]
+    k = "arith" if k.startswith("arith:") else ("unwrap" if k in ("call:unwrap", "call:expect") else k)
+    cnt[(f, k)] = cnt.get((f, k), 0) + 1
+out.append("def accountedCounts : List (String × String × Nat) := [")
+out.append(",\n".join(f'  ("{f}", "{k}", {n})' for (f, k), n in sorted(cnt.items())))
+out.append("]")
+out.append("")
 out.append("end Solstat")
 open(os.path.join(VERIF, "lean/Solstat/Props/C04Sites.lean"), "w").write("\n".join(out) + "\n")
 from collections import Counter
